@@ -16,86 +16,86 @@
 
 ReqTokens == <<
    (* SL='/'  A6='aaaaaa'  Q='?'  SCH='://'  SP=' '  V11='HTTP/1.1'  V1='HTTP/1.'  CRLF='\r\n' *)
-   [n |-> "SL", b |-> <<47>>, hot |-> FALSE],
-   [n |-> "A6", b |-> <<97, 97, 97, 97, 97, 97>>, hot |-> FALSE],
-   [n |-> "Q", b |-> <<63>>, hot |-> FALSE],
-   [n |-> "SCH", b |-> <<58, 47, 47>>, hot |-> FALSE],
-   [n |-> "SP", b |-> <<32>>, hot |-> FALSE],
-   [n |-> "V11", b |-> <<72, 84, 84, 80, 47, 49, 46, 49>>, hot |-> FALSE],
-   [n |-> "V1", b |-> <<72, 84, 84, 80, 47, 49, 46>>, hot |-> FALSE],
-   [n |-> "CRLF", b |-> <<13, 10>>, hot |-> FALSE] >>
+   [n |-> "SL", b |-> <<47>>, c |-> "sl", hot |-> FALSE],
+   [n |-> "A6", b |-> <<97, 97, 97, 97, 97, 97>>, c |-> "text", hot |-> FALSE],
+   [n |-> "Q", b |-> <<63>>, c |-> "q", hot |-> FALSE],
+   [n |-> "SCH", b |-> <<58, 47, 47>>, c |-> "sch", hot |-> FALSE],
+   [n |-> "SP", b |-> <<32>>, c |-> "ws", hot |-> FALSE],
+   [n |-> "V11", b |-> <<72, 84, 84, 80, 47, 49, 46, 49>>, c |-> "ver", hot |-> FALSE],
+   [n |-> "V1", b |-> <<72, 84, 84, 80, 47, 49, 46>>, c |-> "ver-cut", hot |-> FALSE],
+   [n |-> "CRLF", b |-> <<13, 10>>, c |-> "crlf", hot |-> FALSE] >>
 
 ReqPres == <<
-   [n |-> "none", b |-> <<>>],
-   [n |-> "GET_", b |-> <<71, 69, 84, 32>>],
-   [n |-> "CONNECT_", b |-> <<67, 79, 78, 78, 69, 67, 84, 32>>] >>
+   [n |-> "none", b |-> <<>>, c |-> "empty"],
+   [n |-> "GET_", b |-> <<71, 69, 84, 32>>, c |-> "ws"],
+   [n |-> "CONNECT_", b |-> <<67, 79, 78, 78, 69, 67, 84, 32>>, c |-> "ws"] >>
 
 RespTokens == <<
    (* O='O'  SP=' '  CRLF='\r\n'  CR='\r'  LF='\n' *)
-   [n |-> "O", b |-> <<79>>, hot |-> FALSE],
-   [n |-> "SP", b |-> <<32>>, hot |-> FALSE],
-   [n |-> "CRLF", b |-> <<13, 10>>, hot |-> FALSE],
-   [n |-> "CR", b |-> <<13>>, hot |-> FALSE],
-   [n |-> "LF", b |-> <<10>>, hot |-> FALSE] >>
+   [n |-> "O", b |-> <<79>>, c |-> "text", hot |-> FALSE],
+   [n |-> "SP", b |-> <<32>>, c |-> "ws", hot |-> FALSE],
+   [n |-> "CRLF", b |-> <<13, 10>>, c |-> "crlf", hot |-> FALSE],
+   [n |-> "CR", b |-> <<13>>, c |-> "cr", hot |-> FALSE],
+   [n |-> "LF", b |-> <<10>>, c |-> "lf", hot |-> FALSE] >>
 
 RespPres == <<
-   [n |-> "S13", b |-> <<72, 84, 84, 80, 47, 49, 46, 49, 32, 50, 48, 48, 32>>],
-   [n |-> "S12", b |-> <<72, 84, 84, 80, 47, 49, 46, 49, 32, 50, 48, 48>>],
-   [n |-> "S14", b |-> <<72, 84, 84, 80, 47, 49, 46, 49, 32, 50, 48, 48, 48, 32>>] >>
+   [n |-> "S13", b |-> <<72, 84, 84, 80, 47, 49, 46, 49, 32, 50, 48, 48, 32>>, c |-> "ws"],
+   [n |-> "S12", b |-> <<72, 84, 84, 80, 47, 49, 46, 49, 32, 50, 48, 48>>, c |-> "text"],
+   [n |-> "S14", b |-> <<72, 84, 84, 80, 47, 49, 46, 49, 32, 50, 48, 48, 48, 32>>, c |-> "ws"] >>
 
 HdrTokens == <<
    (* CRLF='\r\n'  CR='\r'  LF='\n'  H='H'  COLON=':'  SP=' '  TAB='\t'  V='v' *)
-   [n |-> "CRLF", b |-> <<13, 10>>, hot |-> FALSE],
-   [n |-> "CR", b |-> <<13>>, hot |-> FALSE],
-   [n |-> "LF", b |-> <<10>>, hot |-> FALSE],
-   [n |-> "H", b |-> <<72>>, hot |-> FALSE],
-   [n |-> "COLON", b |-> <<58>>, hot |-> FALSE],
-   [n |-> "SP", b |-> <<32>>, hot |-> FALSE],
-   [n |-> "TAB", b |-> <<9>>, hot |-> FALSE],
-   [n |-> "V", b |-> <<118>>, hot |-> FALSE] >>
+   [n |-> "CRLF", b |-> <<13, 10>>, c |-> "crlf", hot |-> FALSE],
+   [n |-> "CR", b |-> <<13>>, c |-> "cr", hot |-> FALSE],
+   [n |-> "LF", b |-> <<10>>, c |-> "lf", hot |-> FALSE],
+   [n |-> "H", b |-> <<72>>, c |-> "name", hot |-> FALSE],
+   [n |-> "COLON", b |-> <<58>>, c |-> "colon", hot |-> FALSE],
+   [n |-> "SP", b |-> <<32>>, c |-> "ws", hot |-> FALSE],
+   [n |-> "TAB", b |-> <<9>>, c |-> "ws", hot |-> FALSE],
+   [n |-> "V", b |-> <<118>>, c |-> "text", hot |-> FALSE] >>
 
 HdrPres == <<
-   [n |-> "none", b |-> <<>>],
-   [n |-> "LINE1", b |-> <<71, 69, 84, 32, 47, 32, 72, 84, 84, 80, 47, 49, 46, 49>>] >>
+   [n |-> "none", b |-> <<>>, c |-> "empty"],
+   [n |-> "LINE1", b |-> <<71, 69, 84, 32, 47, 32, 72, 84, 84, 80, 47, 49, 46, 49>>, c |-> "text"] >>
 
 QryTokens == <<
    (* AMP='&'  EQ='='  A='a'  B='b' *)
-   [n |-> "AMP", b |-> <<38>>, hot |-> FALSE],
-   [n |-> "EQ", b |-> <<61>>, hot |-> FALSE],
-   [n |-> "A", b |-> <<97>>, hot |-> FALSE],
-   [n |-> "B", b |-> <<98>>, hot |-> FALSE] >>
+   [n |-> "AMP", b |-> <<38>>, c |-> "amp", hot |-> FALSE],
+   [n |-> "EQ", b |-> <<61>>, c |-> "eq", hot |-> FALSE],
+   [n |-> "A", b |-> <<97>>, c |-> "name", hot |-> FALSE],
+   [n |-> "B", b |-> <<98>>, c |-> "text", hot |-> FALSE] >>
 
 NoPres == <<
-   [n |-> "none", b |-> <<>>] >>
+   [n |-> "none", b |-> <<>>, c |-> "empty"] >>
 
 ChkTokens == <<
    (* Z='0'  N1='1'  N3='3'  HUGE_F='ffffffffffffffff'  HUGE_E='fffffffffffffffe'  HUGE_8='8000000000000000'  CRLF='\r\n'  CR='\r'  LF='\n'  D='X' *)
-   [n |-> "Z", b |-> <<48>>, hot |-> FALSE],
-   [n |-> "N1", b |-> <<49>>, hot |-> FALSE],
-   [n |-> "N3", b |-> <<51>>, hot |-> FALSE],
-   [n |-> "HUGE_F", b |-> <<102, 102, 102, 102, 102, 102, 102, 102, 102, 102, 102, 102, 102, 102, 102, 102>>, hot |-> TRUE],
-   [n |-> "HUGE_E", b |-> <<102, 102, 102, 102, 102, 102, 102, 102, 102, 102, 102, 102, 102, 102, 102, 101>>, hot |-> TRUE],
-   [n |-> "HUGE_8", b |-> <<56, 48, 48, 48, 48, 48, 48, 48, 48, 48, 48, 48, 48, 48, 48, 48>>, hot |-> TRUE],
-   [n |-> "CRLF", b |-> <<13, 10>>, hot |-> FALSE],
-   [n |-> "CR", b |-> <<13>>, hot |-> FALSE],
-   [n |-> "LF", b |-> <<10>>, hot |-> FALSE],
-   [n |-> "D", b |-> <<88>>, hot |-> FALSE] >>
+   [n |-> "Z", b |-> <<48>>, c |-> "digit", hot |-> FALSE],
+   [n |-> "N1", b |-> <<49>>, c |-> "digit", hot |-> FALSE],
+   [n |-> "N3", b |-> <<51>>, c |-> "digit", hot |-> FALSE],
+   [n |-> "HUGE_F", b |-> <<102, 102, 102, 102, 102, 102, 102, 102, 102, 102, 102, 102, 102, 102, 102, 102>>, c |-> "HUGE", hot |-> TRUE],
+   [n |-> "HUGE_E", b |-> <<102, 102, 102, 102, 102, 102, 102, 102, 102, 102, 102, 102, 102, 102, 102, 101>>, c |-> "HUGE", hot |-> TRUE],
+   [n |-> "HUGE_8", b |-> <<56, 48, 48, 48, 48, 48, 48, 48, 48, 48, 48, 48, 48, 48, 48, 48>>, c |-> "HUGE", hot |-> TRUE],
+   [n |-> "CRLF", b |-> <<13, 10>>, c |-> "crlf", hot |-> FALSE],
+   [n |-> "CR", b |-> <<13>>, c |-> "cr", hot |-> FALSE],
+   [n |-> "LF", b |-> <<10>>, c |-> "lf", hot |-> FALSE],
+   [n |-> "D", b |-> <<88>>, c |-> "data", hot |-> FALSE] >>
 
 UrlTokens == <<
    (* A='a'  PLUS='+'  PCT='%'  H4='4'  H1='1'  Z='z' *)
-   [n |-> "A", b |-> <<97>>, hot |-> FALSE],
-   [n |-> "PLUS", b |-> <<43>>, hot |-> FALSE],
-   [n |-> "PCT", b |-> <<37>>, hot |-> FALSE],
-   [n |-> "H4", b |-> <<52>>, hot |-> FALSE],
-   [n |-> "H1", b |-> <<49>>, hot |-> FALSE],
-   [n |-> "Z", b |-> <<122>>, hot |-> FALSE] >>
+   [n |-> "A", b |-> <<97>>, c |-> "text", hot |-> FALSE],
+   [n |-> "PLUS", b |-> <<43>>, c |-> "plus", hot |-> FALSE],
+   [n |-> "PCT", b |-> <<37>>, c |-> "pct", hot |-> FALSE],
+   [n |-> "H4", b |-> <<52>>, c |-> "hex", hot |-> FALSE],
+   [n |-> "H1", b |-> <<49>>, c |-> "hex", hot |-> FALSE],
+   [n |-> "Z", b |-> <<122>>, c |-> "text", hot |-> FALSE] >>
 
 WspTokens == <<
    (* SP=' '  TAB='\t'  CR='\r'  LF='\n'  A='a'  NUL='\x00' *)
-   [n |-> "SP", b |-> <<32>>, hot |-> FALSE],
-   [n |-> "TAB", b |-> <<9>>, hot |-> FALSE],
-   [n |-> "CR", b |-> <<13>>, hot |-> FALSE],
-   [n |-> "LF", b |-> <<10>>, hot |-> FALSE],
-   [n |-> "A", b |-> <<97>>, hot |-> FALSE],
-   [n |-> "NUL", b |-> <<0>>, hot |-> FALSE] >>
+   [n |-> "SP", b |-> <<32>>, c |-> "ws", hot |-> FALSE],
+   [n |-> "TAB", b |-> <<9>>, c |-> "ws", hot |-> FALSE],
+   [n |-> "CR", b |-> <<13>>, c |-> "ws", hot |-> FALSE],
+   [n |-> "LF", b |-> <<10>>, c |-> "ws", hot |-> FALSE],
+   [n |-> "A", b |-> <<97>>, c |-> "text", hot |-> FALSE],
+   [n |-> "NUL", b |-> <<0>>, c |-> "ws", hot |-> FALSE] >>
 =============================================================================
